@@ -31,20 +31,27 @@ def content(t, k):
     """the document the remote serves for type index t, release index k: a distinct term set per release"""
     pre = TYPES[t].identifier
     ids = [1, 2, 3 + k, 10 + t]
+    rev = REV.get((t, k), 0)        # the remote re-published this tag with other content
+    if rev:
+        ids.append(40 + rev)
     nodes = [{'id': PURL + '%s_%07d' % (pre, i), 'lbl': 'term %d' % i, 'type': 'CLASS'} for i in ids]
     edges = [{'sub': PURL + '%s_%07d' % (pre, i), 'pred': 'is_a', 'obj': PURL + '%s_%07d' % (pre, 1)} for i in ids[1:]]
     # a second, foreign prefix in the same document: the loader options (prefixes_of_interest) decide what a load returns
-    nodes += [{'id': PURL + 'XX_%07d' % i, 'lbl': 'other %d' % i, 'type': 'CLASS'} for i in (1, 5 + k)]
-    edges += [{'sub': PURL + 'XX_%07d' % (5 + k), 'pred': 'is_a', 'obj': PURL + 'XX_0000001'}]
+    nodes += [{'id': PURL + 'XX_%07d' % i, 'lbl': 'other %d' % i, 'type': 'CLASS'} for i in [1, 5 + k] + ([40 + rev] if rev else [])]
+    edges += [{'sub': PURL + 'XX_%07d' % i, 'pred': 'is_a', 'obj': PURL + 'XX_0000001'} for i in [5 + k] + ([40 + rev] if rev else [])]
     # the document is larger than one network read (see Response.read): a member the loader ignores pads it to ~20 KiB
     return json.dumps({'graphs': [{'id': 'x', 'meta': {}, 'nodes': nodes, 'edges': edges}], 'padding': 'x' * 20000}).encode('utf-8')
 
 
+REV = {}
+
+
 def expected_terms(t, k, view=0):
+    rev = REV.get((t, k), 0)
     if view:
-        return ['XX:0000001', 'XX:%07d' % (5 + k)]
+        return sorted('XX:%07d' % i for i in [1, 5 + k] + ([40 + rev] if rev else []))
     pre = TYPES[t].identifier
-    return sorted('%s:%07d' % (pre, i) for i in [1, 2, 3 + k, 10 + t])
+    return sorted('%s:%07d' % (pre, i) for i in [1, 2, 3 + k, 10 + t] + ([40 + rev] if rev else []))
 
 
 class Ctx(threading.local):
@@ -238,6 +245,7 @@ class Env:
         self.releases = [list(r) for r in releases]        # private copy: a history may publish further releases
         self.relative = relative
         self.views = {}
+        REV.clear()
         if relative:
             os.chdir(self.base)
             self.store_dir = 'store'
@@ -484,9 +492,47 @@ def run_latest(payload, case, idx):
         env.cleanup()
 
 
+def run_republish(payload, case, idx):
+    """load a release, clear, the remote re-publishes the SAME tag with other content, load again: nothing is cached, so the
+    new bytes must be fetched, stored and loaded (evaluated directly - the model's remote is a fixed function)"""
+    env = Env(payload['workdir'], 'p%d' % idx, case['relative'], case['releases'])
+    t, r, full = case['t'], case['release'], case['full']
+    k = env.releases[t].index(r)
+    direct, outcomes = [], []
+    try:
+        for j in range(case.get('warm', 1)):
+            outcomes.append(env.load(t, r, full=full))
+        try:
+            env.store.clear(None if case['clear'] is None else TYPES[case['clear']])
+        except Exception as e:
+            direct.append(f'clear({case["clear"]}) raised {exn_name(e)}')
+        REV[(t, k)] = 1
+        before = env.snapshot()
+        outcomes.append(env.load(t, r, full=full))
+        after = env.snapshot()
+        if outcomes[-1] == 4:
+            direct.append(f'after clear and a re-publication of {r} the load returned an ontology that differs from loading the served bytes directly')
+        elif outcomes[-1] != 1:
+            direct.append(f'a load from a healthy remote did not succeed after clear and a re-publication of {r}: outcome {outcomes[-1]} {getattr(env, "last_error", "")}')
+        if not after['fetches'][len(before['fetches']):]:
+            direct.append(f'no complete local copy of {r} existed after clear, yet the remote was not asked')
+        if after['incomplete'] or [t, r] not in after['finals']:
+            direct.append(f'after the load the cache location of {r} does not hold the bytes the remote served: incomplete file {after["incomplete"]}')
+        n = len(after['fetches'])
+        outcomes.append(env.load(t, r, full=full))
+        last = env.snapshot()
+        if outcomes[-1] == 4:
+            direct.append(f'the cache hit after the re-publication of {r} returned an ontology that differs from loading the served bytes directly')
+        if last['fetches'][n:]:
+            direct.append(f'a complete local copy of {r} existed, yet the remote was asked for {last["fetches"][n:]}')
+        return {'outcomes': outcomes, 'direct': direct}
+    finally:
+        env.cleanup()
+
+
 def observe(payload):
     res = []
-    fn = {'history': run_history, 'kill': run_kill, 'race': run_race, 'latest': run_latest}
+    fn = {'history': run_history, 'kill': run_kill, 'race': run_race, 'latest': run_latest, 'republish': run_republish}
     for idx, case in enumerate(payload['cases']):
         try:
             res.append(fn[case['kind']](payload, case, idx))
